@@ -21,7 +21,7 @@ ASSUMPTIONS = ['two implementations inside kyupy are compared with each other (d
 def cases(draw, tier):
     big = tier == 'thorough'
     nl = draw(S.netlists(max_g=24 if big else 10, max_pi=4, max_st=2, need_d=True, clock_pins=False, po_taps=5))
-    lanes = draw(st.integers(1, 6 if big else 3))
+    lanes = draw(st.one_of(st.integers(1, 6 if big else 3), st.integers(1, 6 if big else 3), st.integers(1, 6 if big else 3), st.sampled_from([33, 49, 65, 70])))      # sometimes more lanes than a mock-GPU block
     n = nl['pi'] + len(nl['st'])
     stim = draw(st.lists(st.lists(st.tuples(st.sampled_from([0, 3, 5, 6]), st.integers(0, 4000)), min_size=lanes, max_size=lanes),
                          min_size=n, max_size=n))
